@@ -187,15 +187,20 @@ namespace foonathan
                     if (!mem)
                     {
                         // reserve more then the default capacity if that didn't work either
+                        // the array occupies whole nodes of the pool, so reserve whole nodes
+                        auto pool_node_size = pool.node_size();
+                        auto needed         = (count * node_size + pool_node_size - 1)
+                                      / pool_node_size * pool_node_size;
                         detail::check_allocation_size<bad_array_size>(
-                            count * node_size,
-                            [&] { return next_capacity() - pool.alignment() + 1; }, info());
+                            needed, [&] { return next_capacity() - pool.alignment() + 1; }, info());
 
-                        block = reserve_memory(pool, count * node_size);
+                        block = reserve_memory(pool, needed);
                         pool.insert(block.memory, block.size);
 
                         mem = pool.allocate(count * node_size);
-                        FOONATHAN_MEMORY_ASSERT(mem);
+                        if (!mem)
+                            FOONATHAN_THROW(
+                                bad_array_size(info(), count * node_size, next_capacity()));
                     }
                 }
 
